@@ -64,3 +64,8 @@ CLAIMED['C19'] = dict(
     text='clean_values forms vs the explicit list (symbolic amounts/keys), constructors from equivalent representations, Card.parse/clean over pinned ranks/suits and all raw '
          'text of <= 2 characters, constructor rejection <=> documented conditions, divmod/rake parts add up.',
     note='rake lemma A discharged at binary16 only (binary64 assumed: monotone IEEE rounding); text longer than 2 raw characters / 2 cards outside')
+CLAIMED['C12'] = dict(
+    technique=SYMEX + '; parametric evaluator, payoffs vs everybody-shows oracle',
+    text='With symbolic stacks and symbolic hand strengths (every deal at once) the engine decides who shows, mucks and is killed; final payoffs equal the side-pot oracle applied '
+         'to all players who did not fold; a mucked/killed player holds no best hand for any pot/board/type he is eligible for; tournament shows are complete; showdown order starts with the last aggressor.',
+    note='two-pass oracle: pots are re-layered over the players who can win something (the engine merges pots contested by the same players, also when everybody shows); n<=3; mini hold\'em streets')
